@@ -20,7 +20,7 @@ from . import common as C
 
 PROP = "C02"; LEVEL = "other"; P_TIER = True
 SCOPE = {"quick": "key sequences over {null,a,b,c} ({a,b,c} for never-null dtypes, {F,T} for bool). GroupBy invariant: 21 single-key containers (numpy float/str/int/bool/datetime/float32, Categorical and categorical Series "
-                  "with unused categories, Series float (non-default row labels)/str/Int64, Index, pyarrow float/str/int/dictionary, pandas ArrowDtype, polars float/str/int/categorical) x every sequence n<=3 (n<=4 numpy float/str) "
+                  "with unused categories, Series float (non-default row labels)/str/Int64, Index, pyarrow float/str/int/dictionary (also chunked, with one shared or per-chunk dictionaries), pandas ArrowDtype, polars float/str/int/categorical) x every sequence n<=3 (n<=4 numpy float/str) "
                   "x sort on/off; RangeIndex start {0,3,-4} x step {1,2,3,-1,-2} x n<=4; 2 keys (8 container pairs, every sequence of key pairs over {null,a,b}^2, n<=3 for 4 pairs, n<=2 for 4) and 3 keys (4 triples, n<=2, "
                   "plus n=3 with the first row fixed for 2 triples) with a null in each position; chunk-wise route by THRESHOLD_FOR_CHUNKED_FACTORIZE=1 on numpy float (n<=5) / int, datetime, Series float (n<=4) / "
                   "str, bool, Series str, pyarrow, polars (n<=3) and RangeIndex, plus float keys [b,a]+t and [a,b,c,a]+t for every t over {null,a,b,c}^4 (a chunk then holds a null next to a non-null key, with and without a "
@@ -41,14 +41,14 @@ BUDGET = {"quick": 60, "thorough": 500}
 
 CATS = ["c", "a", "b", "unused"]
 T0 = pd.Timestamp("2020-01-01")
-NULLABLE = {"np_float", "np_str", "np_dt", "np_f32", "cat", "cat_series", "pd_float", "pd_str", "pd_index", "pd_Int64", "pa_float", "pa_str", "pa_int", "pa_dict", "pda_float",
+NULLABLE = {"np_float", "np_str", "np_dt", "np_f32", "cat", "cat_series", "pd_float", "pd_str", "pd_index", "pd_Int64", "pa_float", "pa_str", "pa_int", "pa_dict", "pa_dict_own", "pda_float",
             "pl_float", "pl_str", "pl_int", "pl_cat"}
 SINGLE_KINDS = ["np_float", "np_str", "np_int", "np_bool", "np_dt", "np_f32", "cat", "cat_series", "pd_float", "pd_str", "pd_index", "pd_Int64",
                 "pa_float", "pa_str", "pa_int", "pa_dict", "pda_float", "pl_float", "pl_str", "pl_int", "pl_cat"]
 THR_KINDS = ["np_float", "np_int", "np_str", "np_dt", "np_bool", "pd_float", "pd_str", "pa_float", "pl_float", "pl_int"]
 MONO_KINDS = ["np_float", "np_int", "np_dt", "np_bool", "pd_float", "pd_index", "pa_float", "pa_int", "pl_float"]
 BASE = {"np_float": "float", "np_f32": "f32", "np_str": "str", "np_int": "int", "np_bool": "bool", "np_dt": "dt", "cat": "cat", "cat_series": "cat", "pd_float": "float", "pd_str": "str",
-        "pd_index": "float", "pd_Int64": "int", "pa_float": "float", "pa_str": "str", "pa_int": "int", "pa_dict": "str", "pda_float": "float", "pl_float": "float", "pl_str": "str",
+        "pd_index": "float", "pd_Int64": "int", "pa_float": "float", "pa_str": "str", "pa_int": "int", "pa_dict": "str", "pa_dict_own": "str", "pda_float": "float", "pl_float": "float", "pl_str": "str",
         "pl_int": "int", "pl_cat": "str"}
 
 
@@ -88,13 +88,20 @@ def make_key(kind, keys, chunks=None, name=None):
     elif kind == "pa_float": obj = pa.array(labs, type=pa.float64())
     elif kind == "pa_str": obj = pa.array(labs, type=pa.string())
     elif kind == "pa_int": obj = pa.array(labs, type=pa.int64())
-    elif kind == "pa_dict": obj = pa.DictionaryArray.from_arrays(pa.array([None if v is None else "cab".index(v) for v in labs], type=pa.int32()), pa.array(["c", "a", "b", "unused"]))
+    elif kind in ("pa_dict", "pa_dict_own"): obj = pa.DictionaryArray.from_arrays(pa.array([None if v is None else "cab".index(v) for v in labs], type=pa.int32()), pa.array(["c", "a", "b", "unused"]))
     elif kind == "pda_float": obj = pd.Series(pd.array(labs, dtype=pd.ArrowDtype(pa.float64())), name=name)
     elif kind == "pl_float": obj = pl.Series(name or "", labs, dtype=pl.Float64)
     elif kind == "pl_str": obj = pl.Series(name or "", labs, dtype=pl.String)
     elif kind == "pl_int": obj = pl.Series(name or "", labs, dtype=pl.Int64)
     elif kind == "pl_cat": obj = pl.Series(name or "", labs, dtype=pl.Categorical)
     else: raise ValueError(kind)
+    if chunks is not None and kind == "pa_dict_own":
+        # a dictionary-typed column read batch by batch: every chunk is a DictionaryArray with ITS OWN dictionary (the chunk's labels in first-appearance order, then an unused entry)
+        b = np.cumsum([0] + list(chunks)); parts = []
+        for i in range(len(chunks)):
+            part = labs[int(b[i]):int(b[i + 1])]; dic = list(dict.fromkeys(v for v in part if v is not None)) + ["unused"]
+            parts.append(pa.DictionaryArray.from_arrays(pa.array([None if v is None else dic.index(v) for v in part], type=pa.int32()), pa.array(dic, type=pa.string())))
+        return pa.chunked_array(parts, type=pa.dictionary(pa.int32(), pa.string())), labs
     if chunks is not None:
         if not isinstance(obj, (pa.Array,)): raise ValueError("chunking is defined for pyarrow kinds")
         b = np.cumsum([0] + list(chunks)); obj = pa.chunked_array([obj.slice(int(b[i]), int(b[i + 1] - b[i])) for i in range(len(chunks))], type=obj.type)
@@ -285,7 +292,8 @@ def _gb_chunked(big):
                 for sort in (True, False):
                     yield {"depth": "gb", "kind": kind, "keys": keys, "sort": sort, "route": "chunks", "chunks": ch}
     e = 1 if big else 0
-    return C.roundrobin(gen("pa_float", [None, 0, 1, 2], 3 + e), gen("pa_float", [0, 1, 2], 4 + e), gen("pa_int", [0, 1, 2], 3 + e), gen("pa_str", [None, 0, 1], 2 + e))
+    return C.roundrobin(gen("pa_float", [None, 0, 1, 2], 3 + e), gen("pa_float", [0, 1, 2], 4 + e), gen("pa_int", [0, 1, 2], 3 + e), gen("pa_str", [None, 0, 1], 2 + e),
+                        gen("pa_dict", [None, 0, 1, 2], 3 + e), gen("pa_dict_own", [None, 0, 1, 2], 3 + e))
 
 
 def _f1(big):
@@ -301,7 +309,7 @@ def _f1(big):
         for n in range(0, 5):
             for start in (0, 3, -4):
                 for step in (1, 2, 3, -1, -2): yield {"depth": "f1", "kind": "range", "start": start, "step": step, "n": n, "sort": False}
-    return C.roundrobin(*[gen(k) for k in SINGLE_KINDS], gen_chunked("pa_float"), gen_chunked("pa_str"), gen_range())
+    return C.roundrobin(*[gen(k) for k in SINGLE_KINDS], gen_chunked("pa_float"), gen_chunked("pa_str"), gen_chunked("pa_dict"), gen_chunked("pa_dict_own"), gen_range())
 
 
 def _mono(big):
